@@ -112,7 +112,8 @@ func h2Goroutines() []gor {
 			default:
 				g.site = "select"
 			}
-		case strings.Contains(blk, "relayFrames.func") && strings.Contains(blk, "ReadFrame"):
+		case strings.Contains(blk, "relayFrames.func") && (strings.Contains(blk, "ReadFrame") || strings.HasPrefix(g.state, "chan send")):
+			// blocked in the read, or (after it) on `frameReady <- struct{}{}`
 			g.kind = "readframe"
 		case strings.Contains(blk, "relayFrames.func"):
 			g.kind = "writer"
